@@ -37,15 +37,15 @@ pub open spec fn is_flat(f: FnUpdate) -> bool decreases f {
 impl FnUpdate {
     #[verifier::external_body]
     pub fn negation(self) -> (r: FnUpdate)
-        ensures forall|vv: spec_fn(VariableId) -> bool, pi: spec_fn(ParameterId, Seq<bool>) -> bool| #[trigger] feval(r, vv, pi) == !feval(self, vv, pi), is_flat(self) ==> is_flat(r)
+        ensures forall|vv: spec_fn(VariableId) -> bool, pi: spec_fn(ParameterId, Seq<bool>) -> bool| #[trigger] feval(r, vv, pi) == !feval(self, vv, pi), is_flat(self) ==> is_flat(r), forall|regs: Seq<VariableId>| #![trigger vars_in(self, regs)] #![trigger vars_in(r, regs)] vars_in(self, regs) ==> vars_in(r, regs)
     { unimplemented!() }
     #[verifier::external_body]
     pub fn and(self, other: FnUpdate) -> (r: FnUpdate)
-        ensures forall|vv: spec_fn(VariableId) -> bool, pi: spec_fn(ParameterId, Seq<bool>) -> bool| #[trigger] feval(r, vv, pi) == (feval(self, vv, pi) && feval(other, vv, pi)), is_flat(self) && is_flat(other) ==> is_flat(r)
+        ensures forall|vv: spec_fn(VariableId) -> bool, pi: spec_fn(ParameterId, Seq<bool>) -> bool| #[trigger] feval(r, vv, pi) == (feval(self, vv, pi) && feval(other, vv, pi)), is_flat(self) && is_flat(other) ==> is_flat(r), forall|regs: Seq<VariableId>| #![trigger vars_in(r, regs)] #![trigger vars_in(self, regs), vars_in(other, regs)] vars_in(self, regs) && vars_in(other, regs) ==> vars_in(r, regs)
     { unimplemented!() }
     #[verifier::external_body]
     pub fn implies(self, other: FnUpdate) -> (r: FnUpdate)
-        ensures forall|vv: spec_fn(VariableId) -> bool, pi: spec_fn(ParameterId, Seq<bool>) -> bool| #[trigger] feval(r, vv, pi) == (!feval(self, vv, pi) || feval(other, vv, pi)), is_flat(self) && is_flat(other) ==> is_flat(r)
+        ensures forall|vv: spec_fn(VariableId) -> bool, pi: spec_fn(ParameterId, Seq<bool>) -> bool| #[trigger] feval(r, vv, pi) == (!feval(self, vv, pi) || feval(other, vv, pi)), is_flat(self) && is_flat(other) ==> is_flat(r), forall|regs: Seq<VariableId>| #![trigger vars_in(r, regs)] #![trigger vars_in(self, regs), vars_in(other, regs)] vars_in(self, regs) && vars_in(other, regs) ==> vars_in(r, regs)
     { unimplemented!() }
     #[verifier::external_body]
     pub fn mk_var(id: VariableId) -> (r: FnUpdate)
@@ -82,12 +82,48 @@ impl BooleanNetwork {
             match r {
                 Ok(id) => !ptab(old(self)).contains_key(name@) && ptab(final(self)) == ptab(old(self)).insert(name@, id) && pname(final(self), id) == name@
                     && (forall|j: ParameterId| j != id ==> pname(final(self), j) == #[trigger] pname(old(self), j))
-                    && (forall|nm: Seq<char>| #[trigger] ptab(old(self)).contains_key(nm) ==> ptab(old(self))[nm] != id),
-                Err(_) => ptab(final(self)) == ptab(old(self)) && (forall|j: ParameterId| pname(final(self), j) == #[trigger] pname(old(self), j)),
+                    && (forall|nm: Seq<char>| #[trigger] ptab(old(self)).contains_key(nm) ==> ptab(old(self))[nm] != id)
+                    && same_vars(old(self), final(self)),
+                Err(_) => same_vars(old(self), final(self)) && ptab(final(self)) == ptab(old(self)) && (forall|j: ParameterId| pname(final(self), j) == #[trigger] pname(old(self), j)),
             }
     { unimplemented!() }
     #[verifier::external_body]
     pub fn get_parameter(&self, id: ParameterId) -> (r: &Parameter) ensures par_name(r) == pname(self, id) { unimplemented!() }
+    #[verifier::external_body]
+    pub fn regulators(&self, v: VariableId) -> (r: Vec<VariableId>) ensures r@ == regs_of(self, v) { unimplemented!() }
+    #[verifier::external_body]
+    pub fn get_update_function(&self, v: VariableId) -> (r: &Option<FnUpdate>) ensures *r == upd_of(self, v) { unimplemented!() }
+    #[verifier::external_body]
+    pub fn get_variable_name(&self, v: VariableId) -> (r: &String) ensures r@ == vname_of(self, v) { unimplemented!() }
+    // lib-param-bn: set_update_function returns Err when the function mentions a variable that is not a regulator of v (or a parameter
+    // with a wrong arity); stated as a precondition of the model, since the converter unwraps the result
+    #[verifier::external_body]
+    pub fn set_update_function(&mut self, v: VariableId, f: Option<FnUpdate>) -> (r: Result<(), String>)
+        requires f matches Some(g) ==> vars_in(g, regs_of(old(self), v))
+        ensures
+            r is Ok,
+            upd_of(final(self), v) == f,
+            forall|w: VariableId| w != v ==> upd_of(final(self), w) == #[trigger] upd_of(old(self), w),
+            forall|w: VariableId| regs_of(final(self), w) == #[trigger] regs_of(old(self), w),
+            ptab(final(self)) == ptab(old(self)),
+            forall|j: ParameterId| pname(final(self), j) == #[trigger] pname(old(self), j),
+    { unimplemented!() }
+}
+pub open spec fn same_vars(a: &BooleanNetwork, b: &BooleanNetwork) -> bool {
+    forall|v: VariableId| #![trigger regs_of(b, v)] #![trigger upd_of(b, v)] #![trigger vname_of(b, v)] regs_of(b, v) == regs_of(a, v) && upd_of(b, v) == upd_of(a, v) && vname_of(b, v) == vname_of(a, v)
+}
+pub uninterp spec fn regs_of(n: &BooleanNetwork, v: VariableId) -> Seq<VariableId>;
+pub uninterp spec fn upd_of(n: &BooleanNetwork, v: VariableId) -> Option<FnUpdate>;
+pub uninterp spec fn vname_of(n: &BooleanNetwork, v: VariableId) -> Seq<char>;
+// every variable of f is one of `regs`
+pub open spec fn vars_in(f: FnUpdate, regs: Seq<VariableId>) -> bool decreases f {
+    match f {
+        FnUpdate::Const(_) => true,
+        FnUpdate::Var(x) => regs.contains(x),
+        FnUpdate::Param(_, args) => forall|i: int| 0 <= i < args@.len() ==> vars_in(#[trigger] args@[i], regs),
+        FnUpdate::Not(g) => vars_in(*g, regs),
+        FnUpdate::Binary(_, l, r) => vars_in(*l, regs) && vars_in(*r, regs),
+    }
 }
 // std functions without a vstd specification that a converter change is likely to use
 pub assume_specification<T, A>[ <std::boxed::Box<T, A> as std::convert::AsRef<T>>::as_ref ](b: &std::boxed::Box<T, A>) -> (r: &T)
